@@ -35,7 +35,7 @@ Pool ==
          ArrOpen2(1, 2), ArrOpen2(5, 3),
          ArrOpenRep(<<>>, I1), ArrOpenRep(<<I1>>, I1), ArrOpenRep(<<Tok(DecDyadic(1, 1), <<FV(1, 1)>>)>>, I1), ArrOpenRep(<<>>, TrueT), ArrOpenRep(<<TrueT>>, TrueT),
          ArrOpenRep(<<TrueT, FalseT>>, FalseT), ArrOpenRep(<<>>, StrA), ArrOpenRep(<<StrA>>, StrA), ArrOpenRep(<<NilT>>, NilT), ArrOpenRep(<<I1, I1>>, I1),
-         ArrOpenAny(<<TrueT>>, FalseT), ArrOpenAny(<<FalseT>>, TrueT),
+         ArrOpenAny(<<TrueT>>, FalseT), ArrOpenAny(<<FalseT>>, TrueT) } \cup DoubleMixToks \cup {
          Tok(Dec(9), <<IV(9)>>), Tok(<<34, 122, 34>>, <<[t |-> "s", v |-> <<122>>]>>), Tok(DecDyadic(1, 1), <<FV(1, 1)>>) }
 Init == toks = <<>> /\ seps = <<>> /\ trail \in Trailers
 Next == /\ Len(toks) < MaxTokens
